@@ -1,6 +1,8 @@
 package mem2reg
 
 import (
+	"sort"
+
 	"github.com/gogpu/naga/ir"
 )
 
@@ -254,7 +256,7 @@ func rewriteBlock(ctx *promotionContext, blk *[]ir.Statement, candidates map[uin
 // without explicit Init see zero per the WGSL specification).
 func initialValues(ctx *promotionContext, candidates map[uint32]struct{}) map[uint32]ir.ExpressionHandle {
 	out := make(map[uint32]ir.ExpressionHandle, len(candidates))
-	for v := range candidates {
+	for _, v := range sortedVars(candidates) {
 		lv := &ctx.fn.LocalVars[v]
 		if lv.Init != nil {
 			out[v] = *lv.Init
@@ -302,4 +304,16 @@ func rewriteEmitRange(ctx *promotionContext, r ir.Range, candidates map[uint32]s
 		}
 		ctx.fn.Expressions[h].Kind = ir.ExprAlias{Source: cv}
 	}
+}
+
+// sortedVars returns the variable indices of a candidate set in ascending order.
+// The passes append expressions (zero values, phis) while walking the set, so the
+// walk order must not depend on map iteration order.
+func sortedVars(set map[uint32]struct{}) []uint32 {
+	vars := make([]uint32, 0, len(set))
+	for v := range set {
+		vars = append(vars, v)
+	}
+	sort.Slice(vars, func(i, j int) bool { return vars[i] < vars[j] })
+	return vars
 }
